@@ -220,3 +220,95 @@ def model_features(m):
         if e.get("rate_kind"):
             feats.add("rate:" + e["rate_kind"])
     return feats
+
+
+# ------------------------------------------------------------------ bounded-rate event models
+LIMIT_CHOICES = ["default", "zero_none", "lo_none", "none_hi", "lo_hi", "none_none"]
+
+
+@st.composite
+def event_model(draw, max_states=5, max_events=5, kinds="TBD", limits=False, transition_only=False,
+                mag_hi=3, allow_range=True, min_states=1, min_events=1, symbolic_rates=True):
+    """Event-only model with integer magnitudes whose propensities are non-negative on every state the
+    limits allow and whose births are bounded (DESIGN 2.1, 'bounded-rate' variant)."""
+    n_s = draw(st.integers(max(min_states, 2 if transition_only else 1), max_states))
+    decl = draw(state_decl(n_s, allow_range=allow_range))
+    states = []
+    for d in decl:
+        states += d["names"] if "range" in d else [d["name"]]
+    lim_kind = {}
+    if limits:
+        for d in decl:
+            if "range" in d:
+                for nm in d["names"]:
+                    lim_kind[nm] = "default"
+                continue
+            k = draw(st.sampled_from(LIMIT_CHOICES))
+            lim_kind[d["name"]] = k
+            if k == "zero_none":
+                d["lims"] = [0, None]
+            elif k == "lo_none":
+                d["lims"] = [draw(st.integers(1, 3)), None]
+            elif k == "none_hi":
+                d["lims"] = [None, draw(st.integers(8, 40))]
+            elif k == "lo_hi":
+                lo = draw(st.integers(0, 3))
+                d["lims"] = [lo, lo + draw(st.integers(3, 30))]
+            elif k == "none_none":
+                d["lims"] = [None, None]
+    else:
+        lim_kind = {s: "default" for s in states}
+    # rates may depend only on states that can never go negative
+    dep = [s for s in states if lim_kind[s] in ("default", "zero_none", "lo_none", "lo_hi")]
+    n_p = draw(st.integers(1, 4))
+    params = draw(st.lists(st.sampled_from([p for p in PARAM_POOL]), min_size=n_p, max_size=n_p, unique=True))
+    n_e = draw(st.integers(min_events, max_events))
+    events = []
+    for _ in range(n_e):
+        n_tr = draw(st.sampled_from([1, 1, 1, 2, 2, 3]))
+        ks = "T" if transition_only else kinds
+        trs = draw(transitions_for_event(states, params, (), n_tr, kinds=ks, integer_mag=True, mag_hi=mag_hi))
+        net = sum((t["mag"]["int"] if t["kind"] == "B" else -t["mag"]["int"] if t["kind"] == "D" else 0) for t in trs)
+        unbounded_up = any(lim_kind[t["d"]] in ("default", "zero_none", "lo_none", "none_none")
+                           for t in trs if t["kind"] == "B")
+        bounded = net > 0 or unbounded_up
+        rate, kind = draw(rate_expr(states, params if symbolic_rates else [], (), bounded=bounded,
+                                    allow_time=False, dep_states=dep))
+        events.append({"rate": rate, "rate_kind": kind, "trans": trs})
+    return {"state_decl": decl, "state_style": draw(st.sampled_from(["list", "list", "space", "comma", "tuples"]))
+            if not limits else "list",
+            "params": params, "param_style": "list", "derived": [], "events": events, "odes": []}
+
+
+def _rate_bound(m, theta, level):
+    x = [level] * len(ir.state_names(m))
+    try:
+        return float(sum(abs(r) for r in ir.reference_float(m, x, 0.0, theta)["rates"]))
+    except Exception:
+        return float("inf")
+
+
+@st.composite
+def stochastic_setup(draw, m, x_hi=40, t_max=10.0, target_events=120, hard_events=3000):
+    """Integer initial state inside the limits, parameters, NumPy-scalar t0 and a horizon sized so that the
+    expected number of events stays moderate."""
+    names = ir.state_names(m)
+    lims = ir.state_limits(m)
+    x0 = []
+    for (lo, hi) in lims:
+        a = 0 if lo is None else int(lo)
+        b = x_hi if hi is None else int(hi)
+        if lo is None:
+            a = min(a, b)
+        x0.append(draw(st.integers(a, max(a, b))))
+    theta = [draw(fl(0.05, 2.0)) for _ in m["params"]]
+    t0 = draw(st.sampled_from([0.0, 0.0, 1.0, 2.5]))
+    r0 = float(sum(ir.reference_float(m, x0, t0, theta)["rates"]))
+    bound = _rate_bound(m, theta, sum(abs(v) for v in x0) + 30)
+    horizon = t_max
+    if r0 > 0:
+        horizon = min(horizon, target_events / r0)
+    if bound > 0:
+        horizon = min(horizon, hard_events / bound)
+    horizon = max(sig(horizon * draw(st.sampled_from([0.3, 1.0, 1.0])), 3), 1e-3)
+    return {"x0": x0, "theta": theta, "t0": t0, "horizon": horizon, "np_seed": draw(st.integers(0, 2 ** 32 - 1))}
